@@ -23,12 +23,26 @@ fn env(par: u8, spin: u8, sp: Option<u8>, preempt: Option<u8>) -> Env {
         spin,
         spurious_park: sp,
         preempt,
+        stall: 0,
     }
+}
+
+/// environment in which the first `n` sleeps/yields of every thread do not
+/// let the peer run
+fn stalled(mut e: Env, n: u8) -> Env {
+    e.stall = n;
+    e
 }
 
 fn cfg(oracles: &[Oracle], kinds: &[Kind], track: bool, nowait: bool) -> RunCfg {
     let mut k: Vec<Kind> = oracles.iter().map(|o| Kind::Oracle(*o)).collect();
     k.extend_from_slice(kinds);
+    // a panic inside kanal on a legal program (unwrap on None, unreachable!,
+    // garbage read through a dangling waiter ...) means the execution produced
+    // no valid result at all: no property holds on it
+    if !k.contains(&Kind::Panic) {
+        k.push(Kind::Panic);
+    }
     RunCfg {
         oracles: oracles.to_vec(),
         kinds: k,
@@ -85,14 +99,15 @@ fn pname(prefix: &str, cap: Cap, class: Class, threads: &[ThreadSpec], e: &Env) 
         })
         .collect();
     format!(
-        "{prefix}/{:?}/{:?}/{}/par{}spin{}sp{:?}pb{:?}",
+        "{prefix}/{:?}/{:?}/{}/par{}spin{}sp{:?}pb{:?}{}",
         cap,
         class,
         t.join("|"),
         e.par,
         e.spin,
         e.spurious_park,
-        e.preempt
+        e.preempt,
+        if e.stall > 0 { format!("stall{}", e.stall) } else { String::new() }
     )
 }
 
@@ -378,6 +393,35 @@ fn unb_sp() -> Vec<Env> {
     vec![env(2, 1, None, UNB), env(2, 1, Some(0), UNB)]
 }
 
+
+/// one producer with three sends against one consumer at small capacities: the
+/// refill of the buffer from a blocked sender races with the producer's next
+/// send
+fn three_sends(prefix: &str, thorough: bool, class: Class) -> Vec<Program> {
+    product(
+        prefix,
+        &[
+            vec![
+                vec![Op::Send, Op::Send, Op::Send],
+                vec![Op::Send, Op::Send, Op::TrySend],
+                vec![Op::TrySend, Op::Send, Op::Send],
+            ],
+            vec![
+                vec![Op::Recv, Op::Recv, Op::Recv],
+                vec![Op::Recv, Op::Drain(VecState::Empty), Op::Recv],
+                vec![Op::TryRecv, Op::Recv, Op::TryRecv],
+                vec![Op::Recv, Op::Len(Side::R), Op::Recv],
+            ],
+        ],
+        &[Cap::B(1), Cap::B(2)],
+        &[class],
+        &[vec![(S, S), (S, S)], vec![(A, A), (S, S)]],
+        &[(S, Conv::Clone)],
+        &[env(2, 1, None, Some(if thorough { 5 } else { 3 }))],
+        true,
+    )
+}
+
 fn c01(thorough: bool) -> Suite {
     let mut ps = Vec::new();
     // 2 threads, full alphabet, (1,1), every flavour assignment, all schedules
@@ -529,6 +573,7 @@ fn c02(thorough: bool) -> Suite {
             true,
         ));
     }
+    ps.extend(three_sends("c02-3sends", thorough, Class::P));
     // two producers ordered through a flag; consumer receives twice
     ps.extend(product(
         "c02-2p-flag",
@@ -600,6 +645,23 @@ fn c03(thorough: bool) -> Suite {
         &sync_only(2),
         &[env(2, 1, None, pb2(thorough))],
     ));
+    ps.extend(three_sends("c03-3sends", thorough, Class::P));
+    // buffer full + blocked sender + a third party sending while a receive
+    // refills the buffer
+    ps.extend(product(
+        "c03-3thr-refill",
+        &[
+            seqs(&[Op::Send, Op::TrySend], 2),
+            seqs(&[Op::Send], 1),
+            vec![vec![Op::Recv, Op::Len(Side::R)], vec![Op::TryRecv, Op::Len(Side::R)], vec![Op::Recv, Op::Recv]],
+        ],
+        &[Cap::B(1)],
+        &[Class::P],
+        &sync_only(3),
+        &[(S, Conv::Clone)],
+        &[env(2, 1, None, pb3(thorough))],
+        true,
+    ));
     ps.extend(product(
         "c03-3thr",
         &[
@@ -626,7 +688,7 @@ fn c05(thorough: bool) -> Suite {
     let classes: &[Class] = if thorough {
         &[Class::D4, Class::DP, Class::DL, Class::DZ]
     } else {
-        &[Class::DP, Class::DL]
+        &[Class::DP, Class::DL, Class::DZ]
     };
     ps.extend(core2(
         "c05-full11",
@@ -748,6 +810,26 @@ fn c06(thorough: bool) -> Suite {
         &envs,
         false,
     ));
+    // handles obtained through conversions before the blocking operation
+    let convs = [Conv::Clone, Conv::CloneOther, Conv::ToOther];
+    let cs: Vec<Vec<Op>> = convs
+        .iter()
+        .flat_map(|c| vec![vec![Op::NewHandle(Side::S, *c), Op::Send], vec![Op::NewHandle(Side::S, *c), Op::Len(Side::S)]])
+        .collect();
+    let cr: Vec<Vec<Op>> = convs
+        .iter()
+        .flat_map(|c| vec![vec![Op::NewHandle(Side::R, *c), Op::Recv], vec![Op::NewHandle(Side::R, *c), Op::Len(Side::R)]])
+        .collect();
+    ps.extend(product(
+        "c06-conv",
+        &[cs, cr],
+        &[Cap::B(0)],
+        &[Class::L],
+        &all_flavours(2),
+        &[(S, Conv::Clone)],
+        &[env(2, 1, None, pb2(thorough))],
+        false,
+    ));
     // two ops: the second wait of a thread meets stale tokens of the first
     ps.extend(product(
         "c06-22",
@@ -839,7 +921,7 @@ fn c07(thorough: bool) -> Suite {
         classes,
         &[vec![(A, A), (S, S)], vec![(A, A), (A, A)]],
         &[(S, Conv::Clone)],
-        &[env(2, 1, None, UNB)],
+        &[env(2, 1, None, Some(if thorough { 6 } else { 4 }))],
         false,
     ));
     ps.extend(product(
@@ -849,7 +931,43 @@ fn c07(thorough: bool) -> Suite {
         classes,
         &[vec![(S, S), (A, A)], vec![(A, A), (A, A)]],
         &[(S, Conv::Clone)],
-        &[env(2, 1, None, UNB)],
+        &[env(2, 1, None, Some(if thorough { 6 } else { 4 }))],
+        false,
+    ));
+    // the peer frozen inside its hand-off while the owner cancels / re-polls:
+    // the owner's waits must not give up
+    ps.extend(product(
+        "c07-stall-r",
+        &[
+            seqs(&[Op::Send, Op::TrySend], 1),
+            vec![
+                vec![Op::FRecv(0), Op::Poll(0, 0), Op::Poll(0, 1)],
+                vec![Op::FRecv(0), Op::Poll(0, 0), Op::FDrop(0)],
+                vec![Op::RecvT(1)],
+            ],
+        ],
+        &[Cap::B(0)],
+        &[Class::L, Class::DP],
+        &[vec![(S, S), (A, A)]],
+        &[(S, Conv::Clone)],
+        &[stalled(env(2, 1, None, Some(2)), 14)],
+        false,
+    ));
+    ps.extend(product(
+        "c07-stall-s",
+        &[
+            vec![
+                vec![Op::FSend(0), Op::Poll(0, 0), Op::Poll(0, 1)],
+                vec![Op::FSend(0), Op::Poll(0, 0), Op::FDrop(0)],
+                vec![Op::SendT(1)],
+            ],
+            seqs(&[Op::Recv, Op::TryRecv], 1),
+        ],
+        &[Cap::B(0)],
+        &[Class::L, Class::DP],
+        &[vec![(A, A), (S, S)]],
+        &[(S, Conv::Clone)],
+        &[stalled(env(2, 1, None, Some(2)), 14)],
         false,
     ));
     // 3 threads: waiter + peer + closer / canceller
@@ -889,6 +1007,7 @@ fn c08(thorough: bool) -> Suite {
         &[env(2, 1, None, pb2(thorough))],
         true,
     ));
+    ps.extend(three_sends("c08-3sends", thorough, Class::P));
     ps.extend(product(
         "c08-11-sp",
         &[
@@ -947,7 +1066,7 @@ fn c08(thorough: bool) -> Suite {
         true,
     ));
     Suite {
-        cfg: cfg(&[Oracle::Capacity, Oracle::Outcome], &[], false, false),
+        cfg: cfg(&[Oracle::Capacity, Oracle::Outcome, Oracle::Linear], &[], false, false),
         rule: "producers out-numbering consumers by one and two, with blocking, timed, try_ and async sends (incl. pending and cancelled futures), receives, drains and len/is_full observers; capacities {0,1,2,unbounded}; history invariant S(t)-R(t)<=n at every successful send's return; refusal exactly when full and nobody waits (outcome set of the reference model)".into(),
         programs: ps,
     }
@@ -1037,11 +1156,14 @@ fn c10(thorough: bool) -> Suite {
                 vec![Op::Close(Side::R), Op::Close(Side::R)],
                 vec![Op::TryRecv, Op::Close(Side::R), Op::Next],
                 vec![Op::Close(Side::R), Op::FRecv(0), Op::Poll(0, 0)],
+                vec![Op::Close(Side::R), Op::NewHandle(Side::R, Conv::CloneOther), Op::RCount(Side::R), Op::IsClosed(Side::R)],
+                vec![Op::Close(Side::R), Op::NewHandle(Side::R, Conv::Clone), Op::RCount(Side::R), Op::TryRecv],
+                vec![Op::Close(Side::R), Op::NewHandle(Side::R, Conv::CloneOther), Op::DropHandle(Side::R), Op::SCount(Side::R), Op::Close(Side::R)],
             ],
         ],
         &CAPS3,
         &[Class::DL],
-        &sync_only(2),
+        &all_flavours(2),
         &[(S, Conv::Clone)],
         &[env(2, 1, None, pb2(thorough))],
         false,
@@ -1058,12 +1180,14 @@ fn c10(thorough: bool) -> Suite {
                 vec![Op::TrySend, Op::Close(Side::S), Op::SCount(Side::S), Op::IsDisc(Side::S)],
                 vec![Op::Send, Op::Close(Side::S)],
                 vec![Op::Close(Side::S), Op::FSend(0), Op::Poll(0, 0)],
+                vec![Op::Close(Side::S), Op::NewHandle(Side::S, Conv::CloneOther), Op::SCount(Side::S), Op::TrySend],
+                vec![Op::Close(Side::S), Op::NewHandle(Side::S, Conv::Clone), Op::IsClosed(Side::S), Op::DropHandle(Side::S), Op::RCount(Side::S)],
             ],
             seqs_upto(&[Op::Recv, Op::TryRecv, Op::RecvT(2), Op::RecvRepoll, Op::Drain(VecState::Empty), Op::Close(Side::R)], 2),
         ],
         &CAPS3,
         &[Class::DL],
-        &sync_only(2),
+        &all_flavours(2),
         &[(S, Conv::Clone)],
         &[env(2, 1, None, pb2(thorough))],
         false,
@@ -1102,7 +1226,7 @@ fn c10(thorough: bool) -> Suite {
         false,
     ));
     Suite {
-        cfg: cfg(&[Oracle::Close, Oracle::Outcome, Oracle::DropOnce], &STUCK, false, false),
+        cfg: cfg(&[Oracle::Close, Oracle::Outcome, Oracle::Linear, Oracle::DropOnce], &STUCK, false, false),
         rule: "close issued by either side at any point against blocked / pending / buffered / in-flight operations of every kind, operations begun by the closing thread after close returned, second close, 3 threads; oracle: exactly one close succeeds, everything begun after its return fails Closed (counts 0, no value delivered), buffered values destroyed by close's return, blocked operations released, results in the model's outcome set".into(),
         programs: ps,
     }
@@ -1121,13 +1245,14 @@ fn c11(thorough: bool) -> Suite {
                 vec![Op::Send, Op::DropHandle(Side::S)],
                 vec![Op::NewHandle(Side::S, Conv::Clone), Op::Send, Op::DropHandle(Side::S), Op::TrySend],
                 vec![Op::NewHandle(Side::S, Conv::CloneOther), Op::DropHandle(Side::S), Op::Send],
+                vec![Op::TrySend, Op::NewHandle(Side::S, Conv::CloneOther), Op::DropHandle(Side::S), Op::SCount(Side::S), Op::TrySend],
                 vec![Op::Len(Side::S)],
             ],
             seqs_upto(&[Op::Recv, Op::TryRecv, Op::RecvT(2), Op::Next, Op::IsDisc(Side::R), Op::IsTerm, Op::RecvRepoll], 2),
         ],
         &CAPS3,
         &[Class::DL],
-        &sync_only(2),
+        &all_flavours(2),
         &[(S, Conv::Clone)],
         &[env(2, 1, None, pb2(thorough))],
         false,
@@ -1142,11 +1267,13 @@ fn c11(thorough: bool) -> Suite {
                 vec![Op::Recv, Op::DropHandle(Side::R)],
                 vec![Op::NewHandle(Side::R, Conv::Clone), Op::DropHandle(Side::R), Op::TryRecv],
                 vec![Op::NewHandle(Side::R, Conv::CloneOther), Op::Recv, Op::DropHandle(Side::R)],
+                vec![Op::NewHandle(Side::R, Conv::CloneOther), Op::DropHandle(Side::R), Op::TryRecv, Op::TryRecv],
+                vec![Op::TryRecv, Op::NewHandle(Side::R, Conv::Clone), Op::DropHandle(Side::R), Op::RCount(Side::R), Op::TryRecv],
             ],
         ],
         &CAPS3,
         &[Class::DL],
-        &sync_only(2),
+        &all_flavours(2),
         &[(S, Conv::Clone)],
         &[env(2, 1, None, pb2(thorough))],
         false,
@@ -1180,7 +1307,7 @@ fn c11(thorough: bool) -> Suite {
         false,
     ));
     Suite {
-        cfg: cfg(&[Oracle::Disconnect, Oracle::Outcome, Oracle::Fifo], &STUCK, false, false),
+        cfg: cfg(&[Oracle::Disconnect, Oracle::Outcome, Oracle::Linear, Oracle::Fifo], &STUCK, false, false),
         rule: "clone/drop of handles of both flavours interleaved with blocked, buffered and in-flight operations; capacities {0,1,unbounded}; oracle: a disconnect is never observed while a handle of that side is surely alive, buffered values come first and in order, every blocked operation is released, results in the model's outcome set (the model fails waiters only on the 1->0 transition)".into(),
         programs: ps,
     }
@@ -1374,6 +1501,79 @@ fn c14(thorough: bool) -> Suite {
         &[env(2, 1, None, pb2(thorough))],
         false,
     ));
+    // all receivers gone while two sender-side threads contend: the realtime
+    // variants must not fall back to a blocking acquisition on any path
+    ps.extend(product(
+        "c14-3thr-rt",
+        &[
+            seqs(&[Op::TrySendRt, Op::TrySendORt], 1),
+            seqs(&[Op::TrySend, Op::Len(Side::S), Op::TrySendRt], 1),
+            seqs(&[Op::Len(Side::R), Op::TryRecvRt], 1),
+        ],
+        &[Cap::B(0), Cap::B(1)],
+        &[Class::DL],
+        &sync_only(3),
+        &[(S, Conv::Clone)],
+        &[env(2, 1, None, pb3(thorough)), env(1, 1, None, pb3(thorough))],
+        false,
+    ));
+    ps.extend(product(
+        "c14-norecv",
+        &[
+            vec![
+                vec![Op::DropHandle(Side::R), Op::TrySendRt],
+                vec![Op::DropHandle(Side::R), Op::TrySendORt],
+                vec![Op::DropHandle(Side::R), Op::TrySend],
+                vec![Op::DropHandle(Side::R), Op::TrySendO],
+                vec![Op::Close(Side::R), Op::TrySendRt, Op::TrySendORt],
+            ],
+            seqs(&[Op::TrySend, Op::Len(Side::S), Op::Send, Op::TrySendRt, Op::Close(Side::S)], 1),
+        ],
+        &[Cap::B(0), Cap::B(1)],
+        &[Class::DL],
+        &[vec![(S, S), (S, S)], vec![(A, A), (A, A)]],
+        &[(S, Conv::Clone)],
+        &[env(2, 1, None, UNB), env(1, 1, None, UNB)],
+        false,
+    ));
+    ps.extend(product(
+        "c14-nosend",
+        &[
+            vec![
+                vec![Op::DropHandle(Side::S), Op::TryRecvRt],
+                vec![Op::DropHandle(Side::S), Op::TryRecv],
+                vec![Op::DropHandle(Side::S), Op::Drain(VecState::Spare)],
+            ],
+            seqs(&[Op::TryRecv, Op::Len(Side::R), Op::TryRecvRt, Op::Close(Side::R)], 1),
+        ],
+        &[Cap::B(0), Cap::B(1)],
+        &[Class::DL],
+        &[vec![(S, S), (S, S)], vec![(A, A), (A, A)]],
+        &[(S, Conv::Clone)],
+        &[env(2, 1, None, UNB), env(1, 1, None, UNB)],
+        false,
+    ));
+    // other receivers parked / pending while one drains or tries
+    ps.extend(product(
+        "c14-parked",
+        &[
+            vec![
+                vec![Op::Len(Side::S), Op::FRecv(0), Op::Poll(0, 0), Op::Set(0), Op::Wait(1)],
+                vec![Op::Len(Side::S), Op::FRecv(0), Op::Poll(0, 0), Op::FRecv(1), Op::Poll(1, 0), Op::Set(0), Op::Wait(1)],
+            ],
+            vec![
+                vec![Op::Wait(0), Op::Drain(VecState::Spare), Op::Set(1)],
+                vec![Op::Wait(0), Op::TryRecv, Op::Drain(VecState::Empty), Op::Set(1)],
+                vec![Op::Wait(0), Op::TryRecvRt, Op::Set(1)],
+            ],
+        ],
+        &[Cap::B(0), Cap::B(1)],
+        &[Class::DL],
+        &[vec![(A, A), (S, S)], vec![(A, A), (A, A)]],
+        &[(S, Conv::Clone)],
+        &[env(2, 1, None, UNB)],
+        false,
+    ));
     ps.extend(product(
         "c14-3thr",
         &[
@@ -1389,7 +1589,7 @@ fn c14(thorough: bool) -> Suite {
         false,
     ));
     Suite {
-        cfg: cfg(&[Oracle::Outcome, Oracle::ExactlyOnce, Oracle::DropOnce], &[Kind::NoWait], false, true),
+        cfg: cfg(&[Oracle::Outcome, Oracle::Linear, Oracle::ExactlyOnce, Oracle::DropOnce], &[Kind::NoWait], false, true),
         rule: "try_send*, try_recv*, drain_into against a peer that loom preempts at every point of each of its own operations (including while it holds the channel lock), reported parallelism {1,2}; truthfulness: results in the reference model's outcome set (a refused try_send leaves the state unchanged), value moved exactly when success is reported; never waits: inside the call the shim forbids park, signal-wait loops and repeated loads of a signal state word, and for the *_realtime variants also any yield/sleep and more than 12 synchronisation steps".into(),
         programs: ps,
     }
@@ -1441,6 +1641,8 @@ fn c15(thorough: bool) -> Suite {
             vec![
                 vec![Op::FSend(0), Op::Poll(0, 0), Op::FSend(1), Op::Poll(1, 0), Op::FSend(2), Op::Poll(2, 0), Op::FDrop(1), Op::Set(0), Op::Wait(1)],
                 vec![Op::FSend(0), Op::Poll(0, 0), Op::FSend(1), Op::Poll(1, 0), Op::FDrop(0), Op::Set(0), Op::Wait(1)],
+                vec![Op::FSend(0), Op::Poll(0, 0), Op::FSend(1), Op::Poll(1, 0), Op::FSend(2), Op::Poll(2, 0), Op::FDrop(0), Op::Set(0), Op::Wait(1)],
+                vec![Op::FSend(0), Op::Poll(0, 0), Op::FSend(1), Op::Poll(1, 0), Op::FSend(2), Op::Poll(2, 0), Op::FSend(3), Op::Poll(3, 0), Op::FDrop(1), Op::Set(0), Op::Wait(1)],
             ],
             vec![vec![Op::Wait(0), Op::Recv, Op::TryRecv, Op::TryRecv, Op::Set(1)], vec![Op::Wait(0), Op::Drain(VecState::Empty), Op::Set(1)]],
         ],
@@ -1451,10 +1653,26 @@ fn c15(thorough: bool) -> Suite {
         &[env(2, 1, None, UNB)],
         false,
     ));
+    ps.extend(product(
+        "c15-queue-r",
+        &[
+            vec![vec![Op::Wait(0), Op::TrySend, Op::TrySend, Op::TrySend, Op::Set(1)], vec![Op::Wait(0), Op::Send, Op::Send, Op::Set(1)]],
+            vec![
+                vec![Op::FRecv(0), Op::Poll(0, 0), Op::FRecv(1), Op::Poll(1, 0), Op::FRecv(2), Op::Poll(2, 0), Op::FDrop(0), Op::Set(0), Op::Wait(1), Op::Poll(1, 0), Op::Poll(2, 0)],
+                vec![Op::FRecv(0), Op::Poll(0, 0), Op::FRecv(1), Op::Poll(1, 0), Op::FRecv(2), Op::Poll(2, 0), Op::FRecv(3), Op::Poll(3, 0), Op::FDrop(1), Op::Set(0), Op::Wait(1), Op::Poll(0, 0), Op::Poll(2, 0), Op::Poll(3, 0)],
+            ],
+        ],
+        &[Cap::B(0)],
+        classes,
+        &[vec![(S, S), (A, A)]],
+        &[(S, Conv::Clone)],
+        &[env(2, 1, None, UNB)],
+        false,
+    ));
     let mut k = MEM.to_vec();
     k.extend_from_slice(&STUCK);
     Suite {
-        cfg: cfg(&[Oracle::ExactlyOnce, Oracle::DropOnce, Oracle::Fifo, Oracle::Outcome], &k, true, false),
+        cfg: cfg(&[Oracle::ExactlyOnce, Oracle::DropOnce, Oracle::Fifo, Oracle::Outcome, Oracle::Linear], &k, true, false),
         rule: "send / receive futures and the stream dropped at every point of their life (never polled, pending, pending after a spurious poll with the same or another waker, claimed by a peer, completed) against sync / async peers and close, followed by further operations; droppable payloads; a second and third waiter queued around the dropped one; oracle: delivered exactly once xor dropped exactly once, no access to the future's memory after the drop (tracker), later operations per the reference model, order of remaining waiters".into(),
         programs: ps,
     }
@@ -1548,6 +1766,49 @@ fn c19(thorough: bool) -> Suite {
         &[env(2, 1, None, UNB)],
         false,
     ));
+    // a receive before the drain (hidden state left by earlier operations), and
+    // other receivers parked while one drains
+    ps.extend(product(
+        "c19-after-recv",
+        &[
+            vec![
+                vec![Op::TrySend, Op::TrySend, Op::Set(0), Op::Wait(1)],
+                vec![Op::TrySend, Op::TrySend, Op::TrySend, Op::Set(0), Op::Wait(1)],
+                vec![Op::TrySend, Op::FSend(0), Op::Poll(0, 0), Op::FSend(1), Op::Poll(1, 0), Op::Set(0), Op::Wait(1)],
+            ],
+            vs.iter()
+                .flat_map(|v| {
+                    vec![
+                        vec![Op::Wait(0), Op::TryRecv, Op::Drain(*v), Op::Set(1)],
+                        vec![Op::Wait(0), Op::Recv, Op::Drain(*v), Op::Drain(VecState::Empty), Op::Set(1)],
+                        vec![Op::Wait(0), Op::RecvT(1), Op::Len(Side::R), Op::Drain(*v), Op::Set(1)],
+                    ]
+                })
+                .collect(),
+        ],
+        &CAPS4,
+        &[Class::DL],
+        &[vec![(A, A), (S, S)], vec![(A, A), (A, A)]],
+        &[(S, Conv::Clone)],
+        &[env(2, 1, None, UNB)],
+        false,
+    ));
+    ps.extend(product(
+        "c19-parked",
+        &[
+            vec![
+                vec![Op::Len(Side::S), Op::FRecv(0), Op::Poll(0, 0), Op::Set(0), Op::Wait(1)],
+                vec![Op::Len(Side::S), Op::FRecv(0), Op::Poll(0, 0), Op::FRecv(1), Op::Poll(1, 0), Op::Set(0), Op::Wait(1)],
+            ],
+            vs.iter().map(|v| vec![Op::Wait(0), Op::Drain(*v), Op::Set(1)]).collect(),
+        ],
+        &[Cap::B(0), Cap::B(1)],
+        &[Class::DL],
+        &[vec![(A, A), (S, S)], vec![(A, A), (A, A)]],
+        &[(S, Conv::Clone)],
+        &[env(2, 1, None, UNB)],
+        false,
+    ));
     // drain racing with senders (sync blocked / timed / try)
     ps.extend(product(
         "c19-race",
@@ -1580,7 +1841,7 @@ fn c19(thorough: bool) -> Suite {
     let mut k = STUCK.to_vec();
     k.push(Kind::NoWait);
     Suite {
-        cfg: cfg(&[Oracle::Drain, Oracle::Outcome, Oracle::DropOnce], &k, false, true),
+        cfg: cfg(&[Oracle::Drain, Oracle::Outcome, Oracle::Linear, Oracle::DropOnce], &k, false, true),
         rule: "channel states built by a setup prefix (k buffered values + j pending async senders in known order, one cancelled; closed) x vector states {empty, spare capacity, pre-filled with sentinels and no spare capacity} x capacities {0,1,2,unbounded}; drain racing with blocked / timed / try senders; 3 threads; oracle: returned count = number appended, prefix untouched, order = buffer then senders oldest first, every drained sender reports success, closed => error and nothing appended, the call never waits for a peer".into(),
         programs: ps,
     }
